@@ -1326,13 +1326,15 @@ def run(ctx):
     tz_vals += ["16", "16Z", "16:30", "08:30:00", "08:30:00.5", "08:30:00Z", "08:30:00+01", "08:30:00+0100", "08:30:00+01:00", "08:30:00-0530", "2022-12-31",
                 "2022-12-31T16:54:32+0100", "2022-12-31T16:54:32.5+01:00", "2022-12-31T16Z", "é+0100", "+0100é", "'+0100", "x" * 40 + "-0000"]
     tz_real = vh_batch([{"op": "hook_sqlite_date", "value": v} for v in tz_vals])
-    if tz_real and not (isinstance(tz_real[0], dict) and tz_real[0].get("no_hooks")) and isinstance(tz_real[0], dict) and "sql" in tz_real[0]:
+    if tz_real and not any(isinstance(r, dict) and (r.get("no_hooks") or r.get("error") == "bad-op" or r.get("bad_op")) for r in tz_real[:3]):
         tz_mod = drv_batch([f"sqlite_date\t{enc(v)}" for v in tz_vals], shards=vlib.NCPU)
         ntz = 0
         for v, r, m in zip(tz_vals, tz_real, tz_mod):
             ctx.case(("sqlite-tz", v), nontrivial=True)
             if not isinstance(r, dict) or r.get("sql") != dec(m):
                 ntz += 1
+                if isinstance(r, dict) and "panic" in r:
+                    ctx.oracle_failure(None, f"the SQLite temporal literal kernel panics on the text {v!r}: {str(r.get('panic'))[:200]}", {"value": v, "answer": r})
                 ctx.disagreement("sqlite time-zone suffix", f"translate_datetime_literal_with_sqlite_function on {v!r}: real {r!r}, Model.Lit.sqliteDateLiteral {dec(m)!r}",
                                  {"value": v, "real": r, "model": dec(m)})
         ctx.count("sqlite-tz:strings", len(tz_vals))
